@@ -167,6 +167,7 @@ class State:
         self.nref = 0
         self.flags = {}
         self.subst = []        # (uninterpreted constant, value) pairs learnt from assumed equalities
+        self.known = {}        # z3 ast id -> True/False for conditions already decided on this path
 
     def fork(self):
         s = State.__new__(State)
@@ -179,6 +180,7 @@ class State:
         s.nref = self.nref
         s.flags = dict(self.flags)
         s.subst = list(self.subst)
+        s.known = dict(self.known)
         return s
 
     def alloc(self, box):
@@ -189,6 +191,24 @@ class State:
     def assume(self, f):
         self.pc.append(f)
         self.learn(f)
+        try:
+            if z3.is_not(f):
+                self.known[f.arg(0).get_id()] = False
+            else:
+                self.known[f.get_id()] = True
+        except z3.Z3Exception:
+            pass
+
+    def decided(self, cond):
+        """True / False when `cond` (already simplified) was assumed or refuted on this path, else None."""
+        k = self.known.get(cond.get_id())
+        if k is not None:
+            return k
+        if z3.is_not(cond):
+            k = self.known.get(cond.arg(0).get_id())
+            if k is not None:
+                return not k
+        return None
 
     def learn(self, f):
         """Record `x == value` facts so later tests on x are decided without a solver call."""
